@@ -115,6 +115,15 @@ def run_extra(ctx):
             o = impl[base + k]
             if o in CRASH or "RUNAWAY" in o:
                 ctx.fail("crash-bt.capacity", "%s build: %s on %s" % (prof, o, c[:200].replace("\t", " ")), [c], [o], "a value or an error")
+    # ---- known finding N: at opt-level 0 (the default of `cargo build` / `cargo test`) the streaming readers recurse once per
+    #      refill inside one token (next -> refill_next -> next ...): a long token delivered in 1-byte reads overflows the stack
+    m = 65000
+    nb = bytes([0x84, 0x2d, 1, 0, 0x0f, 0, m & 255, m >> 8]) + b"q" * m
+    nc = ["bl.stream\t%s\t%d\t%s" % (hexs(nb), m + 100, ",".join(["1"] * len(nb)))]
+    impl, _ = ctx.correspond("refill_recursion_opt0", nc, nontrivial=lambda c, i: True, profile="debug", model=False)
+    for c, o in zip(nc, impl[-len(nc):]):
+        if o in CRASH:
+            ctx.fail("N-refill-recursion-opt0", "debug build (library at opt-level 0): binary TokenReader on a 65000-byte string token delivered in 1-byte reads into a 65100-byte buffer: %s (one stack frame per refill)" % o, [c[:200]], [o], "the two tokens and the string")
     # ---- known finding I: recursion depth = nesting depth (JSON / write_tape / deserialize `any`)
     deep = b"a={" * ctx.scale(60000, 200000)
     dc = ["writer.rt\t32,1,r\t%s" % hexs(deep + b"}" * (len(deep) // 3))]
